@@ -31,13 +31,32 @@ theorem C06_rejects_iff_invalid (w₀ : World) (ops : List HOp) (e : Event)
     (hno : noReannounceFrom {} (ops ++ [.ev e]) = true) :
     (∃ r σ', tryReceive (runHistory (Sys.init w₀) ops).σ e = .err r σ') ↔
       (runSpec {} ops).cur.invalid e ≠ [] := by
-  sorry
+  have hv := recv_verdict w₀ ops e hno
+  constructor
+  · rintro ⟨r, σ', h⟩ hnil
+    rw [h] at hv
+    simp [Res.verdict, Spec.verdict, hnil] at hv
+  · intro hne
+    cases hi : (runSpec {} ops).cur.invalid e with
+    | nil => exact absurd hi hne
+    | cons r rest =>
+      cases ht : tryReceive (runHistory (Sys.init w₀) ops).σ e with
+      | ok σ' => rw [ht] at hv; simp [Res.verdict, Spec.verdict, hi] at hv
+      | err r' σ' => exact ⟨r', σ', rfl⟩
+      | panic s σ' => rw [ht] at hv; simp [Res.verdict] at hv
 
 theorem C06_reported_reason_applies (w₀ : World) (ops : List HOp) (e : Event)
     (hno : noReannounceFrom {} (ops ++ [.ev e]) = true) (r : RErr) (σ' : Sigma)
     (h : tryReceive (runHistory (Sys.init w₀) ops).σ e = .err r σ') :
     r ∈ (runSpec {} ops).cur.invalid e := by
-  sorry
+  have hv := recv_verdict w₀ ops e hno
+  rw [h] at hv
+  cases hi : (runSpec {} ops).cur.invalid e with
+  | nil => simp [Res.verdict, Spec.verdict, hi] at hv
+  | cons r' rest =>
+    simp only [Res.verdict, Spec.verdict, hi, List.head?_cons, Option.some.injEq] at hv
+    rw [hv]
+    exact List.mem_cons_self ..
 
 /-- Non-vacuity: a reachable state after a restart in which one event is invalid for two reasons
     and the first one in check order is reported. -/
